@@ -9,8 +9,11 @@ value trees on the line protocol, space separated tokens:
   `u` unit · `n<decimal>` · `b<hex>` (`b-` empty) · `N<name>` (syntax of `parseName`) ·
   `( x1 … xk )` = right-nested pairs · `[ x1 … xk ]` = list
 
-  c02.dec <class> <type> <origin|none> <pfx-hex> <rdata-hex>   →  ok <tree> | err
-  c02.enc <class> <type> <origin|none> <tree>                   →  ok <hex> | invalid | needabs
+  c02.dec <variant> <class> <type> <origin|none> <pfx-hex> <rdata-hex>   →  ok <tree> | err
+  c02.enc <variant> <class> <type> <origin|none> <tree>                   →  ok <hex> | invalid | needabs
+
+  <variant>: 0 = the code as shipped; 1 = the recorded defect `EDE-text-ends-with-NUL` repaired (every trailing NUL of
+  an EDE text dropped).  The harness learns which one the working tree implements by replaying the witness.
   c02.wf                                                        →  per-type static status (for the evidence)
 -/
 namespace Driver
@@ -56,21 +59,27 @@ end
 def statusLine (e : Entry) : String :=
   s!"{e.cls}/{e.typ}/{e.mnemonic}:custom={e.isCustom}"
 
+def lookupV (variant c t : Nat) : Entry :=
+  let e := lookup c t
+  if variant = 1 ∧ e.typ = 41 ∧ e.isCustom then { e with custom := some ⟨optPostIntended, id⟩ } else e
+
 def handleC02 : List String → Option String
-  | ["c02.dec", c, t, o, p, r] => do
+  | ["c02.dec", vr, c, t, o, p, r] => do
+    let vr ← vr.toNat?
     let c ← c.toNat?; let t ← t.toNat?
     let o ← parseOptName o
     let p ← ofHex p; let r ← ofHex r
-    some (match (lookup c t).decode o p r with
+    some (match (lookupV vr c t).decode o p r with
       | .ok v => "ok " ++ showVal v
       | .error _ => "err")
-  | "c02.enc" :: c :: t :: o :: toks => do
+  | "c02.enc" :: vr :: c :: t :: o :: toks => do
+    let vr ← vr.toNat?
     let c ← c.toNat?; let t ← t.toNat?
     let o ← parseOptName o
     let (v, left) ← parseVal toks
     if !left.isEmpty then none
     else
-      let e := lookup c t
+      let e := lookupV vr c t
       let raw := e.pre v
       let okCtor := if e.isCustom then true else validCtor e.schema o raw
       if !okCtor then some "invalid"
